@@ -288,11 +288,15 @@ def random_decl(rng, did, nmin=3, nmax=7, p_async=0.45, p_fallible=0.3, construc
         name = '%s%d' % (prefix, tcount[0])
         tcount[0] += 1
         types[name] = {'form': form or rng.choice(['ptr', 'val'])}
+        if constructs and rng.random() < 0.15:
+            types[name]['alias'] = True      # declared as `type T = TU`
         return name
 
     def new_arg():
         name = 'A%d' % len(argtypes)
         types[name] = {'form': rng.choice(['ptr', 'val'])}
+        if constructs and rng.random() < 0.15:
+            types[name]['alias'] = True
         argtypes.append(name)
         return name
 
@@ -677,7 +681,7 @@ def tree_decl(rng, did, n=6, p_async=0.85):
     return {'id': did, 'injector': 'Init_' + did, 'ret': 'T%d' % n, 'types': types, 'providers': provs, 'layout': ids, 'planted': None}
 
 
-def sources_decl(rng, did, p_fallible=0.5):
+def sources_decl(rng, did, p_fallible=0.5, nsync=None):
     """Several input-free sources (2-4 Async, 1-2 synchronous), each fallible or not; a few middle providers; a sink that
     consumes everything left over.  Declaration order shuffled."""
     types = {}
@@ -696,20 +700,20 @@ def sources_decl(rng, did, p_fallible=0.5):
     srcs = []
     for _ in range(rng.randint(2, 4)):
         srcs.append(add([], True, rng.random() < p_fallible))
-    for _ in range(rng.randint(1, 2)):
+    for _ in range(rng.randint(1, 2) if nsync is None else nsync):
         srcs.append(add([], False, rng.random() < p_fallible))
-    for _ in range(rng.randint(0, 3)):
-        add(rng.sample(produced, rng.randint(1, min(2, len(produced)))), rng.random() < 0.5, rng.random() < p_fallible * 0.6)
+    for _ in range(rng.randint(0, 3) if nsync is None else rng.randint(2, 4)):
+        add(rng.sample(produced, rng.randint(1, min(2, len(produced)))), rng.random() < (0.5 if nsync is None else 0.35), rng.random() < p_fallible * 0.6)
     consumed = {r for p in provs for r in p['requires']}
     loose = [t for t in produced if t not in consumed]
     rng.shuffle(loose)
-    sink = add(loose[:7], rng.random() < 0.2, rng.random() < p_fallible * 0.4)
+    sink = add(loose[:7], rng.random() < 0.2 and nsync is None, rng.random() < p_fallible * 0.4)
     ids = [p['id'] for p in provs]
     rng.shuffle(ids)
     return {'id': did, 'injector': 'Init_' + did, 'ret': sink, 'types': types, 'providers': provs, 'layout': ids, 'planted': None}
 
 
-def wide_decl(rng, did, width=10, p_fallible=0.0, sync_root=True):
+def wide_decl(rng, did, width=10, p_fallible=0.0, sync_root=True, p_root=0.85):
     """Wide fan-out: one root (synchronous or Async) consumed by `width` Async providers (a few of them also chained in
     pairs), all feeding one sink — more goroutine chains than any small declaration has (boundary sizes of the
     scheduler: chain counts, channel counts, parameter counts)."""
@@ -718,7 +722,7 @@ def wide_decl(rng, did, width=10, p_fallible=0.0, sync_root=True):
               'wrap': 'async-bind', 'struct': ''}]
     for i in range(1, width + 1):
         types['T%d' % i] = {'form': rng.choice(['ptr', 'val'])}
-        req = ['T0'] if rng.random() < 0.85 else []
+        req = ['T0'] if rng.random() < p_root else []
         if i > 2 and rng.random() < 0.2:
             req.append('T%d' % rng.randrange(1, i))
         provs.append({'id': 'P%d' % i, 'kind': 'fn', 'requires': req, 'provides': [['T%d' % i]], 'async': rng.random() < 0.92,
